@@ -82,6 +82,17 @@ CLAIMS = {
          "implementation and model trace, and by full-trace equality with the timed model (debounce, throttle x 3 edges, buffer_with_time, "
          "buffer_with_count_and_time; all label sequences <= 4 plus random ones with gaps <, =, > the window). PARTIAL: subseq_ok / buffers_ok "
          "are not yet proved of the model for all label sequences; sample(notifier) is decided under C04.", "DESIGN.md section 5 C09"),
+ "C02": ("Theorem C02_timed: for each of delay, observe_on, delay_subscription, subscribe_on, debounce, throttle (3 edges), "
+         "buffer_with_time, buffer_with_count_and_time, interval, interval_at, timer, for EVERY label sequence before the unsubscription (input "
+         "events, polls of any task in any order, clock advances) and EVERY one after it, no subscriber call occurs from the unsubscribe "
+         "label on (proved with an invariant 'every task that can still reach the subscriber is covered by the returned subscription' and "
+         "its preservation by every label). C02_chain_incremental / C02_op2_incremental / C02_flatten_silent for the untimed pipelines, where "
+         "unsubscribing empties the inputs' Subscriber slots. Each run injects unsubscribe() or a guard drop at every position of 66k cases: "
+         "14 timed operators with all tasks polled in random orders afterwards, every single-input operator, the 8 combinators with all "
+         "interleavings, the flattening operators with hot inner observables emitting afterwards; traces judged by 'nothing after the "
+         "unsubscribe' and compared with the model. On the pinned tree throttle with a trailing edge delivered after unsubscribe (fixed, "
+         "50c4f28). PARTIAL: the _threads clause (lock-level interleavings of an unsubscribing with an emitting thread) is not decided here; "
+         "share()/ref_count is decided under C11.", "DESIGN.md section 5 C02"),
 }
 
 checks = []
